@@ -891,6 +891,7 @@ def gen_c12(rnd, n, thorough=False):
 GENS['C12'] = gen_c12
 
 
+
 def gen_c16(rnd, n, thorough=False):
     """The matrix subcommand x archive selection x window x fault; every cell is run through the real
     command struct, the model predicts ok / diff / notexist / err (never panic) and the effect."""
@@ -1175,3 +1176,30 @@ def gen_args(rnd, n):
             lines.append('cliargs %s %s' % (sub, ' '.join(hexarg(a) for a in args)))
         cases.append({'id': 'args-%d' % c, 'lines': lines, 'tags': {'layout': 'args', 'src': 'args', 'dest': 'args', 'sub': hist, 'kind': 'args', 'files': 0, 'window': 'args'}})
     return cases
+
+
+def procify(gen, share=0.12):
+    """Some invocations are made through the program itself (cmd/whispertool/main.go: dispatch, flags, exit
+    status) instead of the command value: option proc=1.  Only windows the flags can express (an end of 0
+    together with a start is refused by every Parse)."""
+    heads = ('clicopy ', 'clidiff ', 'clisum ', 'clisumcopy ', 'clisumdiff ', 'cliview ', 'cliviewraw ', 'cligenerate ')
+    def ok(line):
+        if not line.startswith(heads) or any(t in line for t in (' live=', ' hold=', ' intruder=', ' again=', ' proc=', ' deep=', 'remotedest=1')):
+            return False
+        kv = dict(t.split('=', 1) for t in line.split()[1:] if '=' in t)
+        frm, until = kv.get('from', '0'), kv.get('until', '0')
+        if frm != '0' and until == '0':
+            return False
+        if frm.startswith('@+') or until.startswith('@+'):
+            return True
+        return True
+    def g(rnd, n, thorough=False):
+        cases = gen(rnd, n, thorough)
+        for cs in cases:
+            cs['lines'] = [l + ' proc=1' if ok(l) and rnd.chance(share) else l for l in cs['lines']]
+        return cases
+    return g
+
+
+for _p in ('C08', 'C09', 'C10', 'C11', 'C12', 'C16', 'C18', 'C20'):
+    GENS[_p] = procify(GENS[_p])
